@@ -64,6 +64,14 @@ def plan(tier, seed):
                 b.append({'id': fam_id(f)+'-nc', 'family': f,
                           'shapes': [[16, 12, 20], [32, 24, 40], [64, 48, 80]],
                           'base': [16, 12, 20]})
+    # a ladder in which one direction (3*2^b cells) runs out of coarsening
+    # levels long before the others (added after a seeded change that
+    # mis-handled exactly this case was missed)
+    for f in families():
+        if fam_id(f) in ('F2isof', 'V2trif'):
+            b.append({'id': fam_id(f)+'-nc3', 'family': f,
+                      'shapes': [[16, 3, 10], [32, 6, 20], [64, 12, 40]],
+                      'base': [16, 3, 10]})
     if tier == 'thorough':
         for f in families():
             if f['nu'] == 2:
@@ -195,11 +203,31 @@ def _cal_batch(b):
 
 
 def calibrate():
-    """Measure every planned configuration on the pinned tree."""
+    """Measure every planned configuration on the pinned tree (only the
+    batches that are not in calib/c06.json yet, unless --all is given)."""
+    import sys
     from concurrent.futures import ProcessPoolExecutor
     from vf import worker
     worker.bootstrap()
     batches = plan('thorough', 0)
+    old = json.loads(CALIB.read_text()) if CALIB.exists() else None
+    if old and '--all' not in sys.argv:
+        todo = [b for b in batches if b['id'] not in old['measured']]
+        with ProcessPoolExecutor(4) as ex:
+            meas = dict(ex.map(_cal_batch, todo))
+        for k, d in meas.items():
+            old['measured'][k] = {s_: {'rho': v['rho'], 'it': v['it']}
+                                  for s_, v in d.items()}
+            fam = [b for b in todo if b['id'] == k][0]['family']
+            key = f"{fam['medium']}{fam['nu']}"
+            for v in d.values():
+                assert v['exit'] == 0, (k, v)
+                if v['rho'] > old['measured_max'][key]:
+                    old['measured_max'][key] = v['rho']
+                    old['caps'][key] = round(CAP_MARGIN*v['rho'], 5)
+            print(k, {s_: round(v['rho'], 4) for s_, v in d.items()})
+        CALIB.write_text(json.dumps(old, indent=1) + '\n')
+        return
     batches.sort(key=lambda b: -max(np.prod(s) for s in b['shapes']))
     with ProcessPoolExecutor(8) as ex:
         meas = dict(ex.map(_cal_batch, batches))
